@@ -418,6 +418,8 @@ def bounded(rep, tier):
 
 
 def check(rep, tier):
+    from vlib import statecensus
+    statecensus.obligations(rep, 'C14', 'planner')
     rep.dropped = 'method bodies read with ast.parse; nested visitor closures executed by pysym'
     rep.assume('C13 walker contract (every comparison is shown to the collecting visitor)', 'execution semantics of ApplyPredictorStep as documented in steps.py')
     rep.trust('pysym executor')
